@@ -75,11 +75,21 @@ func validateJSONPatches(patches []byte) error {
 			return fmt.Errorf("%s: cannot modify document root", patch.JSONPatch)
 		}
 
+		// a JSON pointer (RFC 6901) is empty or starts with '/'; the patch engine ignores anything before the
+		// first '/', so "x/service" would address the services
+		if !strings.HasPrefix(path, "/") {
+			return fmt.Errorf("%s: path is not a valid JSON pointer", patch.JSONPatch)
+		}
+
 		// move and copy operations read (and move removes) the 'from' location
 		if fromMsg, ok := p["from"]; ok && fromMsg != nil {
 			var from string
 			if err := json.Unmarshal(*fromMsg, &from); err != nil {
 				return fmt.Errorf("%s: invalid from", patch.JSONPatch)
+			}
+
+			if !strings.HasPrefix(from, "/") {
+				return fmt.Errorf("%s: from is not a valid JSON pointer", patch.JSONPatch)
 			}
 
 			if from == "" || strings.HasPrefix(from, "/"+document.ServiceProperty) ||
